@@ -88,6 +88,23 @@ func buildC16(kind string, opt bool) *c16World {
 		r = w.env.NewRouter("r", o...)
 		w.serve = r
 		w.kind, w.label, w.opt = "router", kind, false
+	case "router-in-recovering-group":
+		// a router without the option stays a router without the option: added to a group that has a recovery function (and,
+		// in the second shape, removed from it again), then served directly - the panic reaches the caller
+		g := w.env.NewGroup(recOpt(w.groupRec))
+		r = w.env.NewRouter("r", mux.WithTrace(w.trace))
+		g.Add(mux.NewPathVersion("", "api"), r)
+		if opt {
+			g.Remove("r")
+		}
+		w.serve = r
+		w.kind, w.label, w.opt = "router", kind, false
+	case "group-new-nil-last-direct":
+		// the options given to Group.New come after the group's: WithRecovery(nil) there switches recovery off for that router
+		g := w.env.NewGroup(mux.WithTrace(w.trace), recOpt(w.groupRec))
+		r = g.New("r", mux.NewPathVersion("", "api"), mux.WithRecovery(nil))
+		w.serve = r
+		w.kind, w.label, w.opt = "router", kind, false
 	case "group-add": // the group has no recovery; the added router brings its own
 		g := w.env.NewGroup()
 		o := []mux.Option{mux.WithTrace(w.trace)}
@@ -394,7 +411,7 @@ func runtimeFault() any {
 func runC16(c *Ctx) {
 	sites := c16Sites()
 	n := 0
-	for _, kind := range []string{"router", "router-nil-last", "group-add", "group-rec-add", "group-new", "group-new-extra", "group-new-many"} {
+	for _, kind := range []string{"router", "router-nil-last", "group-add", "group-rec-add", "group-new", "group-new-extra", "group-new-many", "router-in-recovering-group", "group-new-nil-last-direct"} {
 		for _, opt := range []bool{true, false} {
 			w := buildC16(kind, opt)
 			if w.buildFault != "" {
@@ -419,7 +436,7 @@ func runC16(c *Ctx) {
 	c.ClassN("product_combinations_enumerated", n)
 	// random sequences mixing panicking and normal requests (pool reuse after recovery)
 	r := c.R
-	w := buildC16(ref.Pick(r, []string{"router", "router-nil-last", "group-add", "group-rec-add", "group-new", "group-new-extra", "group-new-many"}), r.Chance(3, 4))
+	w := buildC16(ref.Pick(r, []string{"router", "router-nil-last", "group-add", "group-rec-add", "group-new", "group-new-extra", "group-new-many", "router-in-recovering-group", "group-new-nil-last-direct"}), r.Chance(3, 4))
 	for k := 0; k < 60 && !c.Violated(); k++ {
 		if r.Chance(1, 3) {
 			id := fmt.Sprint(r.Intn(1000))
@@ -443,7 +460,7 @@ func init() {
 		Cases:      func(t string) int { return map[string]int{"quick": 1000, "thorough": 40000}[t] },
 		Run:        runC16,
 		Exhaustive: true,
-		Rule: "every case enumerates the complete product: 23 panic sites (route handler per method, automatic HEAD, the asterisk-form and empty request targets on a stand-alone router (OPTIONS *, GET *, TRACE *, empty path), GET and HEAD handlers that write a header, a status and body bytes before panicking, OPTIONS, 405, 404, TRACE, each middleware layer Use/prefix/registration before and after next, CallFunc, group not-found, CallFunc for group not-found) x 5 panic values (string, error, struct, genuine runtime.Error, http.ErrAbortHandler) x 7 containers (Router, a router whose recovery option is followed by WithRecovery(nil) - documented \"the last one wins\", so none -, Group+Add-ed router with its own recovery, a group with a recovery function plus an Add-ed router with another one, Group.New router inheriting the group's option, the same with unrelated options of its own, the same with the recovery option as the tenth of thirteen options) x recovery on/off; after every fault a normal request and a 404 are checked; then a random sequence of 60 faulty/normal requests; " +
+		Rule: "every case enumerates the complete product: 23 panic sites (route handler per method, automatic HEAD, the asterisk-form and empty request targets on a stand-alone router (OPTIONS *, GET *, TRACE *, empty path), GET and HEAD handlers that write a header, a status and body bytes before panicking, OPTIONS, 405, 404, TRACE, each middleware layer Use/prefix/registration before and after next, CallFunc, group not-found, CallFunc for group not-found) x 5 panic values (string, error, struct, genuine runtime.Error, http.ErrAbortHandler) x 9 containers (Router, a router whose recovery option is followed by WithRecovery(nil) - documented \"the last one wins\", so none -, Group+Add-ed router with its own recovery, a group with a recovery function plus an Add-ed router with another one, Group.New router inheriting the group's option, the same with unrelated options of its own, the same with the recovery option as the tenth of thirteen options, a router without the option that is or was a member of a recovering group and is served directly, a Group.New router whose own WithRecovery(nil) comes after the group's option, served directly) x recovery on/off; after every fault a normal request and a 404 are checked; then a random sequence of 60 faulty/normal requests; " +
 			"non-trivial (distinct) = every (container, option, site, value) combination",
 		Floors: func(t string) map[string]int64 {
 			return map[string]int64{"recovered": 200, "passed_through": 200, "product_combinations_enumerated": 400, "random_sequence_fault": 100}
